@@ -7,7 +7,19 @@ TRUSTED_BASE = [
     "Rust compiler, std, and the Lean driver's line protocol (/verif/lean/Main.lean)",
 ]
 
+HTML_TB = ["recursive renderT/renderF stand for comrak's explicit work-stack traversal (exercised by the correspondence on deep and wide trees, not proved)",
+           "anchor normalisation (Unicode lower-casing / category filter) is a parameter of the model; the harness supplies the real Anchorizer's value per heading text"]
+
 PROPS = {
+    "C18": {
+        "lean_props": ["Comrak.Props.C18"],
+        "lean_audit": ["Comrak.Audit.C18"],
+        "required_theorems": ["enter_sourcepos_only_adds", "exit_sourcepos_only_adds", "exit_independent_of_sourcepos"],
+        "strength": "per-node theorems for all kinds/options/states (HTML); tree-level lift, XML and CommonMark by correspondence + on/off oracle",
+        "trusted_base": HTML_TB,
+        "assumptions": ["the on/off oracle compares strip(on) with strip(off), so a literal data-sourcepos attribute inside passed-through raw HTML is not blamed on the option",
+                        "XML and CommonMark formatters are not yet in the Lean model for this property: decided there by the oracle on real output only"],
+    },
     "C10": {
         "lean_props": ["Comrak.Props.C10"],
         "lean_audit": ["Comrak.Audit.C10"],
@@ -28,10 +40,13 @@ PROPS = {
 
 NOT_CLAIMED_REASON = {}
 
-HTML_TB = ["recursive renderT/renderF stand for comrak's explicit work-stack traversal (exercised by the correspondence on deep and wide trees, not proved)",
-           "anchor normalisation (Unicode lower-casing / category filter) is a parameter of the model; the harness supplies the real Anchorizer's value per heading text"]
-
 MANIFEST_TEXT = {
+    "C18": {
+        "text": "Proof (partial). For the complete token-level model of html.rs, Lean proves for every node kind, option vector, context and writer state that erasing data-sourcepos from what a node writes with the option on gives exactly what it writes with the option off, on entering and on leaving the node (enter/exit_sourcepos_only_adds). The lift to whole trees, and the XML/CommonMark/parser halves, are decided on every run by byte-equal correspondence of the model with format_html for both settings and by the on/off oracle on the real format_html, format_xml, format_commonmark and parse_document over generated documents and directly built trees x random option vectors.",
+        "note": "Trusted: Lean kernel + standard axioms; harness/driver; the tree-level lift needs equality of the two runs' writer states, exercised not proved.",
+        "technique": "Lean 4 per-node theorems (case analysis over 41 kinds) + differential correspondence + metamorphic on/off oracle on real output",
+        "design_ref": "DESIGN.md section 7, C18",
+    },
     "C10": {
         "text": "Proof. html.rs's format_node_default is modelled completely at token level (41 node kinds, all options, footnote and table bookkeeping). Lean proves, for every option vector and every tree of any depth/width whose rows sit under tables with a unique leading header row and whose footnote definitions sit under the document or another definition (balShapeT, implied by Shape), that the emitted tag events are balanced and nothing is left open (html_balanced), via per-node pairing lemmas for all kinds. The model is tied to the code by byte-equality of real format_html output with the spelled model tokens on generated documents x random option vectors on every run; the byte-level tag-stack oracle (Lean lexer + stack machine, incl. thead/tbody/footnote-section once) is also run on the real output.",
         "note": "Trusted: Lean kernel + standard axioms; harness/driver; recursive traversal stands for the explicit work stack; token-to-byte lexing step is exercised, not proved; balShapeT of parsed trees is checked per run, proved nowhere (C04).",
